@@ -11,7 +11,7 @@ import numpy as np
 from collections import OrderedDict
 import functools
 
-from ._files import PseudoNetCDFFile, _getncattr, _valuetype
+from ._files import PseudoNetCDFFile, _getncattr, _valuetype, _keepmask
 from ._variables import PseudoNetCDFMaskedVariable, PseudoNetCDFVariable
 
 # Functions to be available for pncexpr
@@ -1063,6 +1063,9 @@ def stack_files(fs, stackdim, coordkeys=None):
                     values = np.ma.concatenate(
                         [f_.variables[varkey][:] for f_ in fs], axis=axisi)
                     p2p.addVariable(tmpf, f, varkey, data=False)
+                    # (a later file may have masked cells where the first
+                    # has none and the variable has no missing code)
+                    _keepmask(f, var, varkey, f.variables[varkey], values)
                     f.variables[varkey][:] = values
 
     return f
